@@ -36,6 +36,8 @@ def gen_cases(ctx: Ctx):
     other4 = hostile.valid_blob(hid=4, pos=(361, 17, 13), data=b"ANOTHER plaintext, protected separately", seed=99)
     for m in hostile.field_substitutions(corp[0][1], other4):
         cases.append([corp[0][0], m])
+    for m in hostile.structural_mutations(corp[0][1]):
+        cases.append([corp[0][0], m])
     for k, m in enumerate(hostile.param_byte_sweep(corp[0][1])):
         if ctx.thorough or k % 3 == 0:
             cases.append([corp[0][0], m])
